@@ -101,7 +101,11 @@ def build_roland(model):
             fat[ch[-1]] = s.get("end_word", END)
         for cl in ch:
             assert 2 <= cl < FAT_N - 10
-            assert cl not in used, f"cluster {cl} used twice: sample {used[cl]} and {idx}"
+            if cl in used:
+                # two samples may live in ONE chain (same first cluster, different leading-cluster offsets), e.g. the
+                # halves of one recording; they then hold the same words
+                other = samples[used[cl]]
+                assert other["chain"] == ch and other["seq"] == s["seq"], f"cluster {cl} used twice: sample {used[cl]} and {idx}"
             used[cl] = idx
     fat[1] = model.get("free_count", 0)
     if model.get("fat_version", 1) == 2:
